@@ -202,11 +202,22 @@ func runC16(c *Ctx) {
 	c.streamChain("R2")
 
 	// ---- R3 ----
-	rm := c.P.Func("diam", "ReadMessage")
 	okR3 := false
 	at := "-"
-	if rm != nil {
-		flow.Instrs(rm, func(in ssa.Instruction) {
+	isHdrStream := func(v ssa.Value) bool {
+		ex, ok := v.(*ssa.Extract)
+		if !ok || ex.Index != 1 {
+			return false
+		}
+		cc, ok := ex.Tuple.(*ssa.Call)
+		if !ok || !cc.Call.IsInvoke() || cc.Call.Method.Name() != "ReadAtLeast" || len(cc.Call.Args) != 3 {
+			return false
+		}
+		k, isK := cc.Call.Args[2].(*ssa.Const)
+		return isK && k.Value != nil && k.Uint64() == ^uint64(0)
+	}
+	for f := range c.readPath() {
+		flow.Instrs(f, func(in ssa.Instruction) {
 			st, ok := in.(*ssa.Store)
 			if !ok {
 				return
@@ -216,42 +227,8 @@ func runC16(c *Ctx) {
 				return
 			}
 			at = c.pos(st)
-			// value: extract of a read-path call whose returned stream includes the ReadAtLeast stream
-			ex, ok := st.Val.(*ssa.Extract)
-			if !ok {
-				return
-			}
-			call, ok := ex.Tuple.(*ssa.Call)
-			if !ok {
-				return
-			}
-			g := flow.StaticCallee(call)
-			if g == nil {
-				return
-			}
-			for _, rv := range flow.ReturnValues(g, ex.Index) {
-				var check func(v ssa.Value, d int) bool
-				check = func(v ssa.Value, d int) bool {
-					if d > 4 {
-						return false
-					}
-					switch x := v.(type) {
-					case *ssa.Phi:
-						for _, e := range x.Edges {
-							if check(e, d+1) {
-								return true
-							}
-						}
-					case *ssa.Extract:
-						if cc, ok := x.Tuple.(*ssa.Call); ok && cc.Call.IsInvoke() && cc.Call.Method.Name() == "ReadAtLeast" && x.Index == 1 {
-							return true
-						}
-					}
-					return false
-				}
-				if check(rv, 0) {
-					okR3 = true
-				}
+			if ok, saw := c.derivesOnlyFrom(st.Val, isHdrStream, 0, map[ssa.Value]bool{}); ok && saw {
+				okR3 = true
 			}
 		})
 	}
